@@ -660,6 +660,11 @@ class DataInfo(Sequence, Immutable):
             return NotImplemented
         if len(self) != len(other):
             return False
+        if (
+            self._separator != other._separator
+            or self._missing_data_token != other._missing_data_token
+        ):
+            return False
         for col1, col2 in zip(self, other):
             if col1 != col2:
                 return False
